@@ -140,4 +140,3 @@ func genCases(c *vf.Ctx) []tcase {
 	}
 	return cases
 }
-
